@@ -77,8 +77,10 @@ InitOfd(init) ==
     [] init = "full" -> [x \in 3 .. 9 |-> NewOfd("a", TRUE, FALSE, FALSE, <<>>)] @@ StdOfd
     [] init = "int"  -> (3 :> NewOfd("s", TRUE, FALSE, FALSE, <<>>)) @@ StdOfd
 
+\* (cnt: system calls made so far, per kind, for the fault injection)
+Calls == {"open", "tmp", "dup", "write", "lseek"}
 K0(s) == [fd |-> InitFd(s.init), ofd |-> InitOfd(s.init), file |-> Files0,
-          lim |-> s.lim, next |-> 20]
+          lim |-> s.lim, next |-> 20, cnt |-> [c \in Calls |-> 0]]
 
 -----------------------------------------------------------------------------
 \* redirection alphabet
@@ -110,8 +112,12 @@ AllKinds  == {"special", "builtin", "function", "group", "subshell", "notfound",
 DotKinds  == {"dot", "cmddot"}
 CoreKinds == {"builtin", "special", "exec", "empty"}
 
+\* fault injection: the n-th system call of kind `call` that the shell makes
+\* for the command fails (with `errno`: any error that says nothing about the
+\* state of the descriptors)
+NoFault == [call |-> "none", n |-> 0, errno |-> "EIO"]
 Sc(init, nc, lim, kind, bst, list) ==
-  [init |-> init, nc |-> nc, lim |-> lim, kind |-> kind, bst |-> bst, list |-> list]
+  [init |-> init, nc |-> nc, lim |-> lim, kind |-> kind, bst |-> bst, list |-> list, fault |-> NoFault]
 
 Seq1(A)       == {<<a>> : a \in A}
 Seq2(A, B)    == {<<a, b>> : a \in A, b \in B}
@@ -127,12 +133,25 @@ Family(inits, ncs, lims, kinds, both, lists) ==
 
 All4   == {"std", "x35", "full", "int"}
 
+\* the same with a fault
+FaultFamily(inits, ncs, kinds, lists, faults) ==
+  {[s EXCEPT !.fault = f] : s \in Family(inits, ncs, {NoLimit}, kinds, FALSE, lists), f \in faults}
+Faults == {[call |-> c, n |-> n, errno |-> "EIO"] : c \in Calls, n \in {1, 2}}
+          \cup {[call |-> "write", n |-> 1, errno |-> "ENOSPC"], [call |-> "open", n |-> 1, errno |-> "EINTR"],
+                [call |-> "dup", n |-> 1, errno |-> "ENFILE"], [call |-> "tmp", n |-> 1, errno |-> "ENOMEM"]}
+HereSmall == {R(0, "here", "", -1), R(3, "here", "", -1), R(1, "out", "a", -1), R(1, "app", "m", -1),
+              R(2, "dupout", "", 1), R(0, "in", "m", -1)}
+FaultLists == Seq1(Alpha({0, 1, 3}, AllOps, {"a", "m"}, {1, 4}, {"closeout", "here"}))
+              \cup Seq2(HereSmall, HereSmall) \cup {<<>>}
+
 \* Scenario families.  (A configuration is a set of families rather than their
 \* union: TLC's union of two large enumerated sets is quadratic.)
 Fam(c) ==
   \* family of the negative configurations (Bug # "none")
   CASE c = "neg"  -> Family({"std", "x35"}, BOOLEAN, {NoLimit}, {"builtin", "exec"}, FALSE,
                             Seq1(Small \cup Alpha({1}, {"clob"}, {"a"}, {}, {})) \cup Seq2(Small, Small))
+    [] c = "negflt" -> FaultFamily({"std"}, {FALSE}, {"builtin", "exec"}, Seq1(HereSmall) \cup Seq2(HereSmall, HereSmall),
+                                   Faults)
     [] c = "negdot" -> Family({"std", "int"}, {FALSE}, {9, 10, 11, 12}, DotKinds, FALSE,
                               Seq1(Small) \cup {<<>>})
     \* quick -----------------------------------------------------------------
@@ -152,6 +171,9 @@ Fam(c) ==
     \* pairs under the limits where the first / the second saved copy does not fit
     [] c = "q4" -> Family({"std", "int"}, {FALSE}, {10, 11, 12}, {"builtin", "exec", "empty", "cmddot"}, FALSE,
                           Seq2(Small, Small))
+    \* every system call of a redirection fails in turn (fault injection)
+    [] c = "qf" -> FaultFamily({"std", "int"}, {FALSE}, {"builtin", "exec", "empty", "notfound"} \cup DotKinds,
+                               FaultLists, Faults)
     \* a small family that exercises every action (run with -coverage)
     [] c = "cov" -> Family({"int"}, BOOLEAN, {NoLimit, 11}, AllKinds, TRUE,
                           Seq1(Alpha({1}, AllOps, {"a", "m", "d", "t"}, {1, 4, 10}, AllMisc))
@@ -164,12 +186,16 @@ Fam(c) ==
     [] c = "t3" -> Family(All4, {FALSE}, 3 .. 13, CoreKinds \cup DotKinds, FALSE, Seq2(Small, Small))
     [] c = "t4" -> Family({"std", "x35"}, {FALSE}, {NoLimit}, {"builtin", "exec"}, FALSE,
                           Seq3(Small, Small, Small))
+    [] c = "tf" -> FaultFamily({"std", "x35", "int"}, BOOLEAN, AllKinds,
+                               FaultLists \cup Seq2(Small, HereSmall) \cup Seq2(HereSmall, Small),
+                               Faults \cup {[call |-> cl, n |-> 3, errno |-> "EIO"] : cl \in Calls})
     [] c = "t5" -> Family({"std"}, {FALSE}, {12}, {"builtin"}, FALSE, Seq3(Small, Small, Small))
 
 \* the families of a configuration
 Parts(c) ==
-  CASE c = "quick"    -> {"q1a", "q1b", "resv", "q2", "q3", "q4"}
-    [] c = "thorough" -> {"t1a", "t1b", "resv", "t2", "t3", "t4", "t5"}
+  CASE c = "quick"    -> {"q1a", "q1b", "resv", "q2", "q3", "q4", "qf"}
+    [] c = "thorough" -> {"t1a", "t1b", "resv", "t2", "t3", "t4", "t5", "tf"}
+    [] c = "cov"      -> {"cov", "negflt"}
     \* the limit families again, for the model check with Sim = FALSE (no replay)
     [] c = "posix"    -> {"q2", "q4"}
     [] OTHER          -> {c}
@@ -194,6 +220,13 @@ Init ==
 
 Rd == sc.list[i]
 
+\* Fault injection.  Every system call of the kinds in Calls is counted; the
+\* one the scenario designates fails without doing anything.
+Tick(kk, c) == [kk EXCEPT !.cnt[c] = @ + 1]
+Hit(c) == sc.fault.call = c /\ k.cnt[c] + 1 = sc.fault.n
+Sys(c, res) == IF Hit(c) THEN KRes(FALSE, "EFAULT", Tick(k, c), -1)
+               ELSE [res EXCEPT !.k = Tick(res.k, c)]
+
 \* redir.rs perform: "Make sure target_fd doesn't have the CLOEXEC flag"
 CheckReserved ==
   /\ pc = "check"
@@ -205,10 +238,10 @@ CheckReserved ==
 Save ==
   /\ pc = "save"
   /\ LET min == IF Bug = "savelow" THEN 3 ELSE 10
-         res == KDup(k, Rd.t, min, Bug # "savenocx")
+         res == Sys("dup", KDup(k, Rd.t, min, Bug # "savenocx"))
      IN IF res.ok THEN k' = res.k /\ cur' = res.fd /\ pc' = "open" /\ failed' = failed
-        ELSE IF res.err = "EBADF" THEN k' = k /\ cur' = -1 /\ pc' = "open" /\ failed' = failed
-        ELSE k' = k /\ cur' = -1 /\ pc' = "unwind" /\ failed' = i
+        ELSE IF res.err = "EBADF" THEN k' = res.k /\ cur' = -1 /\ pc' = "open" /\ failed' = failed
+        ELSE k' = res.k /\ cur' = -1 /\ pc' = "unwind" /\ failed' = i
   /\ UNCHANGED <<sc, i, saved, spec, ran, obsIn, wr, st, exited, dotfd>>
 
 \* the operand: a file, a descriptor to copy, `-`, or a here-document
@@ -229,7 +262,7 @@ OpenOk(fd, own) == pc' = "install" /\ failed' = failed /\ spec' = [own |-> own, 
 OpenFile ==
   /\ pc = "open" /\ Rd.op \in FileOps /\ ~UsesNoClobber
   /\ LET fl  == OpenFlags(Rd.op)
-         res == KOpen(k, Rd.path, fl.acc, fl.creat, fl.excl, fl.trunc, fl.app, Sim)
+         res == Sys("open", KOpen(k, Rd.path, fl.acc, fl.creat, fl.excl, fl.trunc, fl.app, Sim))
      IN /\ k' = res.k
         /\ IF res.ok THEN OpenOk(res.fd, TRUE) ELSE OpenFail
   /\ UNCHANGED <<sc, i, saved, cur, ran, obsIn, wr, st, exited, dotfd>>
@@ -237,7 +270,7 @@ OpenFile ==
 \* open_file_noclobber: O_CREAT|O_EXCL first ...
 OpenExcl ==
   /\ pc = "open" /\ Rd.op \in FileOps /\ UsesNoClobber
-  /\ LET res == KOpen(k, Rd.path, "w", TRUE, TRUE, FALSE, FALSE, Sim)
+  /\ LET res == Sys("open", KOpen(k, Rd.path, "w", TRUE, TRUE, FALSE, FALSE, Sim))
      IN /\ k' = res.k
         /\ IF res.ok THEN OpenOk(res.fd, TRUE)
            ELSE IF res.err = "EEXIST" THEN pc' = "open2" /\ failed' = failed /\ spec' = spec
@@ -247,7 +280,7 @@ OpenExcl ==
 \* ... then the existing file without O_CREAT; refuse it if it is regular
 OpenExisting ==
   /\ pc = "open2"
-  /\ LET res == KOpen(k, Rd.path, "w", FALSE, FALSE, FALSE, FALSE, Sim)
+  /\ LET res == Sys("open", KOpen(k, Rd.path, "w", FALSE, FALSE, FALSE, FALSE, Sim))
      IN IF ~res.ok THEN k' = res.k /\ OpenFail
         ELSE IF KIsRegular(res.k, res.fd) THEN k' = KClose(res.k, res.fd).k /\ OpenFail
         ELSE k' = res.k /\ OpenOk(res.fd, TRUE)
@@ -265,13 +298,26 @@ CloseSpec ==
   /\ OpenOk(-1, FALSE)
   /\ UNCHANGED <<sc, k, i, saved, cur, ran, obsIn, wr, st, exited, dotfd>>
 
-\* here_doc::open_fd: anonymous temporary file, filled, rewound
-OpenHere ==
+\* here_doc::open_fd: an anonymous temporary file ...
+HereTmp ==
   /\ pc = "open" /\ Rd.op = "here"
-  /\ LET res == KOpenTmp(k, Rd.data)
+  /\ LET res == Sys("tmp", KOpenTmp(k, Rd.data))
      IN /\ k' = res.k
-        /\ IF res.ok THEN OpenOk(res.fd, TRUE) ELSE OpenFail
+        /\ IF res.ok THEN pc' = "herewrite" /\ failed' = failed /\ spec' = [own |-> TRUE, fd |-> res.fd]
+           ELSE OpenFail
   /\ UNCHANGED <<sc, i, saved, cur, ran, obsIn, wr, st, exited, dotfd>>
+
+\* ... is filled with the content and rewound (fill_content: write_all, lseek).
+\* If either fails the temporary descriptor is closed again.
+\* WRONG (Bug = "hereleak"): return the error and forget the descriptor.
+HereFill(call, next) ==
+  /\ IF Hit(call)
+     THEN /\ k' = IF Bug = "hereleak" THEN Tick(k, call) ELSE KClose(Tick(k, call), spec.fd).k
+          /\ OpenFail
+     ELSE k' = Tick(k, call) /\ pc' = next /\ failed' = failed /\ spec' = spec
+  /\ UNCHANGED <<sc, i, saved, cur, ran, obsIn, wr, st, exited, dotfd>>
+HereWrite == pc = "herewrite" /\ HereFill("write", "hereseek")
+HereSeek  == pc = "hereseek" /\ HereFill("lseek", "install")
 
 \* dup2 onto the target and close the temporary descriptor, or close the target
 Install ==
@@ -318,7 +364,7 @@ LeakSave ==
 \* the dot built-in: open the script (O_CLOEXEC), lowest free descriptor ...
 DotOpen ==
   /\ pc = "exec" /\ sc.kind \in DotKinds
-  /\ LET res == KOpen(k, "x", "r", FALSE, FALSE, FALSE, FALSE, Sim)
+  /\ LET res == Sys("open", KOpen(k, "x", "r", FALSE, FALSE, FALSE, FALSE, Sim))
      IN IF res.ok THEN /\ k' = [res.k EXCEPT !.fd[res.fd].cx = TRUE]
                        /\ dotfd' = res.fd /\ pc' = "dotmove" /\ failed' = failed
         ELSE k' = res.k /\ dotfd' = -1 /\ pc' = "unwind" /\ failed' = Len(sc.list) + 1
@@ -329,11 +375,11 @@ DotOpen ==
 DotMove ==
   /\ pc = "dotmove"
   /\ IF dotfd >= 10 THEN k' = k /\ dotfd' = dotfd /\ pc' = "dotrun" /\ failed' = failed
-     ELSE LET d == KDup(k, dotfd, 10, TRUE)
+     ELSE LET d == Sys("dup", KDup(k, dotfd, 10, TRUE))
           IN IF d.ok THEN /\ k' = KClose(d.k, dotfd).k
                           /\ dotfd' = d.fd /\ pc' = "dotrun" /\ failed' = failed
              \* WRONG (Bug = "movenoclose"): return the error, keep the low descriptor
-             ELSE /\ k' = IF Bug = "movenoclose" THEN k ELSE KClose(k, dotfd).k
+             ELSE /\ k' = IF Bug = "movenoclose" THEN d.k ELSE KClose(d.k, dotfd).k
                   /\ dotfd' = -1 /\ pc' = "unwind" /\ failed' = Len(sc.list) + 1
   /\ UNCHANGED <<sc, i, saved, cur, spec, ran, obsIn, wr, st, exited>>
 
@@ -421,7 +467,7 @@ FinishError ==
 Terminated == pc = "done" /\ UNCHANGED vars
 
 Next == \/ DotOpen \/ DotMove \/ DotClose \/ CheckReserved \/ Save \/ OpenFile \/ OpenExcl \/ OpenExisting \/ CopyFd
-        \/ CloseSpec \/ OpenHere \/ Install \/ Record \/ ReleaseSave \/ LeakSave
+        \/ CloseSpec \/ HereTmp \/ HereWrite \/ HereSeek \/ Install \/ Record \/ ReleaseSave \/ LeakSave
         \/ RunBody \/ RunNotFound \/ RunEmpty \/ RunExec \/ UndoOne \/ PreserveOne
         \/ Finish \/ FinishError \/ Terminated
 
@@ -434,7 +480,7 @@ ModelRec ==
    before |-> KTable(K0(sc)), files0 |-> KFiles(K0(sc), PathOrder),
    ran |-> ran, in |-> obsIn, wr |-> wr,
    after |-> KTable(k), files1 |-> KFiles(k, PathOrder),
-   st |-> st, exited |-> exited, stchk |-> TRUE, fchk |-> TRUE]
+   st |-> st, exited |-> exited, flt |-> sc.fault.call # "none", stchk |-> TRUE, fchk |-> TRUE]
 
 \* P1: every behaviour of the intended protocol is allowed by the oracle
 Conforms == pc = "done" => Verdict(ModelRec) = {}
@@ -444,9 +490,9 @@ Conforms == pc = "done" => Verdict(ModelRec) = {}
 InternalInv ==
   \A f \in DOMAIN k.fd :
      /\ (k.fd[f].cx => (f >= 10 \/ (pc = "dotmove" /\ f = dotfd)))
-     /\ (f >= 10 /\ ~k.fd[f].cx) => (pc = "install" /\ spec.own /\ spec.fd = f)
+     /\ (f >= 10 /\ ~k.fd[f].cx) => (pc \in {"install", "herewrite", "hereseek"} /\ spec.own /\ spec.fd = f)
 
-TypeOK == /\ pc \in {"dotmove", "dotrun", "dotclose", "check", "save", "open", "open2", "install", "record", "release",
+TypeOK == /\ pc \in {"herewrite", "hereseek", "dotmove", "dotrun", "dotclose", "check", "save", "open", "open2", "install", "record", "release",
                      "exec", "undo", "unwind", "preserve", "done"}
           /\ i \in 1 .. 3
           /\ failed \in 0 .. 4
